@@ -243,7 +243,13 @@ where
             match stream.as_mut().poll_next(cx) {
                 // Received message from a client stream
                 Poll::Ready(Some((id, Ok(item)))) => {
-                    let mut payload = item.unwrap_message();
+                    let mut payload = match item {
+                        Frame::Message(payload) => payload,
+                        _ => {
+                            warn!("Discarding non-message frame from requestor {id}");
+                            continue;
+                        }
+                    };
                     payload
                         .headers
                         .get_or_insert(HashMap::new())
